@@ -76,7 +76,8 @@ func VerifC12StepSpace() {
 func VerifC12StepLiteral() {
 	r := vfRestorer()
 	var text string
-	if vfChoice("raw", 2) == 1 {
+	raw := vfChoice("raw", 2) == 1
+	if raw {
 		text = "`" + vfBytes("raw", 1+vfChoice("len", 3), "a\n") + "`"
 	} else {
 		text = vfOpaque("lit", "\"")
@@ -90,6 +91,18 @@ func VerifC12StepLiteral() {
 	for i := mark; i < len(r.lines); i++ {
 		vfAssert(r.base+r.lines[i] > int(an.ValuePos), "raw-line-inside-literal")
 	}
+	// one line start per newline byte of the raw string, at that byte's offset
+	nl := 0
+	for i := 0; raw && i < len(text); i++ {
+		isNL := text[i] == '\n'
+		nl += vfB2I(isNL)
+		found := false
+		for j := mark; j < len(r.lines); j++ {
+			found = vfOr(found, r.base+r.lines[j] == int(cursor0)+i)
+		}
+		vfAssert(vfImplies(isNL, found), "raw-newline-recorded-at-its-offset")
+	}
+	vfAssert(len(r.lines)-mark == nl, "raw-newline-count")
 }
 
 // VerifC12File: whole-file restore through the public RestoreFile with the real go/token FileSet:
@@ -115,9 +128,10 @@ func VerifC12File() {
 		return f
 	}
 	res := &Restorer{Map: newMap(), Fset: fset}
+	fr1 := res.FileRestorer()
 	f1 := mk("a", 2)
 	var a1 *ast.File
-	panicked := vfExpectPanic(func() { a1, _ = res.RestoreFile(f1) })
+	panicked := vfExpectPanic(func() { a1, _ = fr1.RestoreFile(f1) })
 	vfAssert(!panicked, "restore-file-no-panic")
 	if panicked {
 		return
@@ -134,10 +148,17 @@ func VerifC12File() {
 		vfAssert(cg.Pos() >= lo && cg.End() <= hi, "comments-inside-file")
 	}
 	if vfTier() > 0 || (len(f1.Decs.Start) == 0 && len(f1.Decls) == 0) {
-		res2 := &Restorer{Map: newMap(), Fset: fset}
-		f2 := mk("b", vfTier())
+		// the second file is restored either by a new restorer or by the very same FileRestorer value
+		fr2 := fr1
+		if vfChoice("sameFileRestorer", 2) == 0 {
+			fr2 = (&Restorer{Map: newMap(), Fset: fset}).FileRestorer()
+		}
+		lineOfPkg := fset.Position(a1.Package).Line
+		lineOfEnd := fset.Position(a1.End()).Line
+		nLines := tf1.LineCount()
+		f2 := mk("b", 1)
 		var a2 *ast.File
-		p2 := vfExpectPanic(func() { a2, _ = res2.RestoreFile(f2) })
+		p2 := vfExpectPanic(func() { a2, _ = fr2.RestoreFile(f2) })
 		vfAssert(!p2, "restore-file-no-panic")
 		if p2 {
 			return
@@ -148,5 +169,9 @@ func VerifC12File() {
 			vfAssert(tf2.Base() > tf1.Base()+tf1.Size(), "files-do-not-overlap")
 			vfAssert(int(a2.Package) >= tf2.Base(), "second-file-positions-inside")
 		}
+		// the first file must still report what it reported before
+		vfAssert(tf1.LineCount() == nLines, "first-file-line-table-unchanged")
+		vfAssert(fset.Position(a1.Package).Line == lineOfPkg, "first-file-line-table-unchanged")
+		vfAssert(fset.Position(a1.End()).Line == lineOfEnd, "first-file-line-table-unchanged")
 	}
 }
